@@ -458,3 +458,328 @@ Proof.
         apply (prev_uniqueI rho s (prev_name v) (TVar v) (FVar v)); auto.
     + apply (fspecI_entry (var_tester s v)). apply in_or_app. simpl. auto.
 Qed.
+
+(* --------------------------------- derived operators, given decidability *)
+Lemma bool_dec_of_iff : forall (b : bool) (P : Prop), (b = true <-> P) -> P \/ ~ P.
+Proof. intros [] P H; [left|right]; [tauto|]. intros HP. apply H in HP. discriminate. Qed.
+
+Lemma holds_hist_since : forall f rho i,
+  (forall j, holds f rho j \/ ~ holds f rho j) ->
+  (holds (FHist f) rho i <-> ~ holds (FSince (FConst true) (FNot f)) rho i).
+Proof.
+  intros f rho i D. simpl. split.
+  - intros H [j [Hj [Hn _]]]. apply Hn. now apply H.
+  - intros H j Hj. destruct (D j) as [?|Hn]; auto. exfalso. apply H.
+    exists j. repeat split; auto.
+Qed.
+
+Lemma holds_once_since : forall f rho i,
+  holds (FOnce f) rho i <-> holds (FSince (FConst true) f) rho i.
+Proof.
+  intros. simpl. split.
+  - intros [j [Hj H]]. exists j. repeat split; auto.
+  - intros [j [Hj [H _]]]. eauto.
+Qed.
+
+Lemma holds_always_until : forall f rho i,
+  (forall j, holds f rho j \/ ~ holds f rho j) ->
+  (holds (FAlways f) rho i <-> ~ holds (FUntil (FConst true) (FNot f)) rho i).
+Proof.
+  intros f rho i D. simpl. split.
+  - intros H [j [Hj [Hn _]]]. apply Hn. now apply H.
+  - intros H j Hj. destruct (D j) as [?|Hn]; auto. exfalso. apply H.
+    exists j. repeat split; auto.
+Qed.
+
+Lemma holds_event_until : forall f rho i,
+  holds (FEvent f) rho i <-> holds (FUntil (FConst true) f) rho i.
+Proof.
+  intros. simpl. split.
+  - intros [j [Hj H]]. exists j. repeat split; auto.
+  - intros [j [Hj [H _]]]. eauto.
+Qed.
+
+Lemma negb_iff : forall (b : bool) (P : Prop), (b = true <-> P) -> (negb b = true <-> ~ P).
+Proof. intros [] P H; simpl; intuition congruence. Qed.
+
+(* ================================================= the flattener, until=true *)
+Theorem tr_specI : forall f T r T',
+  wf T -> tr true true f T = (r, T') ->
+  sspecI (vars f) T T' /\ fspecI f r T'.
+Proof.
+  induction f; intros T r T' W H.
+  - (* FVar *) simpl in H. injection H as <- <-. split; [now apply sspecI_refl|].
+    split; auto. intros rho _ i. unfold eval. simpl. tauto.
+  - (* FConst *) simpl in H. injection H as <- <-. split; [now apply sspecI_refl|].
+    split; auto. intros rho _ i. unfold eval. simpl. tauto.
+  - (* FNot *) simpl in H. destruct (tr true true f T) as [a T1] eqn:E1.
+    injection H as <- <-. destruct (IHf _ _ _ W E1) as [S1 F1].
+    split; auto. now apply fspecI_not.
+  - (* FBin *) simpl in H.
+    destruct (tr true true f1 T) as [a T1] eqn:E1.
+    destruct (tr true true f2 T1) as [b T2] eqn:E2. injection H as <- <-.
+    destruct (IHf1 _ _ _ W E1) as [S1 F1].
+    destruct (IHf2 _ _ _ (proj1 S1) E2) as [S2 F2].
+    pose proof (fspecI_sspecI _ _ _ _ _ F1 S2) as [Hs1 F1'].
+    destruct F2 as [Hs2 F2]. simpl vars. split.
+    + eapply sspecI_trans;
+        [eapply sspecI_mono; [|exact S1]; apply incl_app_l
+        |eapply sspecI_mono; [|exact S2]; apply incl_app_r].
+    + split; [simpl; now rewrite Hs1, Hs2|].
+      intros rho Htr i. unfold eval in *. simpl. rewrite bop_bopP.
+      apply bopP_iff; auto.
+  - (* FIte *) simpl in H.
+    destruct (tr true true f1 T) as [a T1] eqn:E1.
+    destruct (tr true true f2 T1) as [b T2] eqn:E2.
+    destruct (tr true true f3 T2) as [d T3] eqn:E3. injection H as <- <-.
+    destruct (IHf1 _ _ _ W E1) as [S1 F1].
+    destruct (IHf2 _ _ _ (proj1 S1) E2) as [S2 F2].
+    destruct (IHf3 _ _ _ (proj1 S2) E3) as [S3 F3].
+    pose proof (fspecI_sspecI _ _ _ _ _ (fspecI_sspecI _ _ _ _ _ F1 S2) S3) as [Hs1 F1'].
+    pose proof (fspecI_sspecI _ _ _ _ _ F2 S3) as [Hs2 F2'].
+    destruct F3 as [Hs3 F3]. simpl vars. split.
+    + eapply sspecI_trans; [eapply sspecI_mono; [|exact S1]|
+        eapply sspecI_trans; [eapply sspecI_mono; [|exact S2]|
+                              eapply sspecI_mono; [|exact S3]]].
+      * apply incl_app_l.
+      * eapply incl_tran; [apply incl_app_l|apply incl_app_r].
+      * eapply incl_tran; [apply incl_app_r|apply incl_app_r].
+    + split; [simpl; now rewrite Hs1, Hs2, Hs3|].
+      intros rho Htr i. unfold eval in *. simpl.
+      rewrite <- (F1' rho Htr i), <- (F2' rho Htr i), <- (F3 rho Htr i).
+      destruct (evalA (rho i) (rho i) a); intuition congruence.
+  - (* FPrevW *) cbn [tr] in H. destruct (tr true true f T) as [e T1] eqn:E1.
+    destruct (IHf _ _ _ W E1) as [S1 F1].
+    apply (prev_case_specI false f e T T1 r T' W S1 F1); auto.
+    intros v ->. simpl in E1. injection E1 as <- <-. auto.
+  - (* FPrevS *) cbn [tr] in H. destruct (tr true true f T) as [e T1] eqn:E1.
+    destruct (IHf _ _ _ W E1) as [S1 F1].
+    apply (prev_case_specI true f e T T1 r T' W S1 F1); auto.
+    intros v ->. simpl in E1. injection E1 as <- <-. auto.
+  - (* FHist *) cbn [tr] in H. destruct (tr true true f T) as [a T1] eqn:E1.
+    destruct (since_case (TConst true) (TNot a)
+                (FSince (FConst true) (FNot f)) T1) as [r2 T2] eqn:E2.
+    injection H as <- <-. destruct (IHf _ _ _ W E1) as [S1 F1].
+    destruct (since_case_specI _ _ _ _ _ _ _ (proj1 S1) (fspecI_true T1)
+                (fspecI_not _ _ _ F1) E2) as [S2 [Hs2 F2]].
+    simpl vars in S2. simpl app in S2. split; [exact (sspecI_trans _ _ _ _ S1 S2)|].
+    split; [simpl; exact Hs2|]. intros rho Htr i.
+    change (eval (rho i) (TNot r2)) with (negb (eval (rho i) r2)).
+    rewrite holds_hist_since.
+    + apply negb_iff. apply (F2 rho Htr i).
+    + intros j. destruct (fspecI_sspecI _ _ _ _ _ F1 S2) as [_ F1'].
+      apply (bool_dec_of_iff _ _ (F1' rho Htr j)).
+  - (* FOnce *) cbn [tr] in H. destruct (tr true true f T) as [a T1] eqn:E1.
+    destruct (IHf _ _ _ W E1) as [S1 F1].
+    destruct (since_case_specI _ _ _ _ _ _ _ (proj1 S1) (fspecI_true T1) F1 H)
+      as [S2 [Hs2 F2]].
+    simpl vars in S2. simpl app in S2. split; [exact (sspecI_trans _ _ _ _ S1 S2)|].
+    split; [exact Hs2|]. intros rho Htr i.
+    rewrite holds_once_since. apply (F2 rho Htr i).
+  - (* FSince *) cbn [tr] in H.
+    destruct (tr true true f1 T) as [p T1] eqn:E1.
+    destruct (tr true true f2 T1) as [q T2] eqn:E2.
+    destruct (IHf1 _ _ _ W E1) as [S1 F1].
+    destruct (IHf2 _ _ _ (proj1 S1) E2) as [S2 F2].
+    pose proof (fspecI_sspecI _ _ _ _ _ F1 S2) as F1'.
+    destruct (since_case_specI _ _ _ _ _ _ _ (proj1 S2) F1' F2 H) as [S3 F3].
+    split; auto. simpl vars.
+    eapply sspecI_trans; [eapply sspecI_mono; [|exact S1]|
+      eapply sspecI_trans; [eapply sspecI_mono; [|exact S2]|exact S3]];
+      auto using incl_app_l, incl_app_r.
+  - (* FAlways *) cbn [tr] in H. destruct (tr true true f T) as [a T1] eqn:E1.
+    destruct (until_case (TConst true) (TNot a)
+                (FUntil (FConst true) (FNot f)) T1) as [r2 T2] eqn:E2.
+    injection H as <- <-. destruct (IHf _ _ _ W E1) as [S1 F1].
+    destruct (until_case_specI _ _ _ _ _ _ _ (proj1 S1) (fspecI_true T1)
+                (fspecI_not _ _ _ F1) E2) as [S2 [Hs2 F2]].
+    simpl vars in S2. simpl app in S2. split; [exact (sspecI_trans _ _ _ _ S1 S2)|].
+    split; [simpl; exact Hs2|]. intros rho Htr i.
+    change (eval (rho i) (TNot r2)) with (negb (eval (rho i) r2)).
+    rewrite holds_always_until.
+    + apply negb_iff. apply (F2 rho Htr i).
+    + intros j. destruct (fspecI_sspecI _ _ _ _ _ F1 S2) as [_ F1'].
+      apply (bool_dec_of_iff _ _ (F1' rho Htr j)).
+  - (* FEvent *) cbn [tr] in H. destruct (tr true true f T) as [a T1] eqn:E1.
+    destruct (IHf _ _ _ W E1) as [S1 F1].
+    destruct (until_case_specI _ _ _ _ _ _ _ (proj1 S1) (fspecI_true T1) F1 H)
+      as [S2 [Hs2 F2]].
+    simpl vars in S2. simpl app in S2. split; [exact (sspecI_trans _ _ _ _ S1 S2)|].
+    split; [exact Hs2|]. intros rho Htr i.
+    rewrite holds_event_until. apply (F2 rho Htr i).
+  - (* FUntil *) cbn [tr] in H.
+    destruct (tr true true f1 T) as [p T1] eqn:E1.
+    destruct (tr true true f2 T1) as [q T2] eqn:E2.
+    destruct (IHf1 _ _ _ W E1) as [S1 F1].
+    destruct (IHf2 _ _ _ (proj1 S1) E2) as [S2 F2].
+    pose proof (fspecI_sspecI _ _ _ _ _ F1 S2) as F1'.
+    destruct (until_case_specI _ _ _ _ _ _ _ (proj1 S2) F1' F2 H) as [S3 F3].
+    split; auto. simpl vars.
+    eapply sspecI_trans; [eapply sspecI_mono; [|exact S1]|
+      eapply sspecI_trans; [eapply sspecI_mono; [|exact S2]|exact S3]];
+      auto using incl_app_l, incl_app_r.
+Qed.
+
+(* ============================================================== translate *)
+Lemma wins_In : forall T w,
+  In w (wins T) <-> exists t, In t T /\ t_win t = Some w.
+Proof.
+  induction T as [|u T IH]; simpl; intros w.
+  - split; [tauto|]. intros [t [[] _]].
+  - destruct (t_win u) as [w'|] eqn:E; simpl; rewrite IH; split.
+    + intros [<-|[t [Ht Hw]]]; eauto.
+    + intros [t [[<-|Ht] Hw]]; [left; congruence|right; eauto].
+    + intros [t [Ht Hw]]; eauto.
+    + intros [t [[<-|Ht] Hw]]; [congruence|eauto].
+Qed.
+
+Lemma solves_inf_satI : forall fx unt f rho,
+  solves_inf (translate fx unt f) rho <->
+  satI rho (x_testers (translate fx unt f)).
+Proof.
+  intros fx unt f rho. unfold translate.
+  destruct (tr fx unt f []) as [r T]. unfold solves_inf, satI, sat1I, eval. simpl.
+  setoid_rewrite conj_eval. setoid_rewrite forallb_forall.
+  setoid_rewrite wins_In. split.
+  - intros (H0 & Ht & Hw) t Hin. split; [|split].
+    + apply H0. now apply in_map.
+    + intros i. apply Ht. now apply in_map.
+    + intros w Hw'. apply Hw. eauto.
+  - intros H. split; [|split].
+    + intros x Hx. apply in_map_iff in Hx. destruct Hx as [t [<- Hin]].
+      now apply H.
+    + intros i x Hx. apply in_map_iff in Hx. destruct Hx as [t [<- Hin]].
+      now apply H.
+    + intros w [t [Hin Hw]]. now apply (H t Hin).
+Qed.
+
+Lemma tracksI_nil : forall rho, tracksI rho [].
+Proof. intros rho t []. Qed.
+Lemma satI_nil : forall rho, satI rho [].
+Proof. intros rho t []. Qed.
+
+Theorem translate_tracksI : forall f,
+  let X := translate true true f in
+  wf (x_testers X) /\
+  x_names X = map t_name (x_testers X) /\
+  state_formula (x_formula X) = true /\
+  (forall t, In t (x_testers X) -> incl (vars (t_tracks t)) (vars f)) /\
+  forall rho,
+    (solves_inf X rho <-> tracksI rho (x_testers X)) /\
+    (tracksI rho (x_testers X) ->
+     forall i, eval (rho i) (x_formula X) = true <-> holds f rho i).
+Proof.
+  intros f X.
+  pose proof (solves_inf_satI true true f) as HS. fold X in HS.
+  unfold X, translate in *. destruct (tr true true f []) as [r T] eqn:E.
+  simpl in *.
+  destruct (tr_specI f [] r T wf_nil E)
+    as [(W & (E0 & HE & HV) & S & U) [Hst F]].
+  simpl in HE. subst E0.
+  split; [exact W|]. split; [reflexivity|]. split; [exact Hst|].
+  split; [exact HV|]. intros rho. split; [split|].
+  - intros H. apply U; [now apply HS|apply tracksI_nil].
+  - intros H. apply HS. apply S; auto. apply satI_nil.
+  - apply F.
+Qed.
+
+(* `holds` depends only on the variables of the formula *)
+Lemma holds_ext : forall g r1 r2,
+  (forall j v, In v (vars g) -> r1 j v = r2 j v) ->
+  forall i, holds g r1 i <-> holds g r2 i.
+Proof.
+  induction g; simpl vars; intros r1 r2 H i; simpl.
+  - rewrite (H i v); simpl; tauto.
+  - tauto.
+  - rewrite (IHg r1 r2 H i). tauto.
+  - apply bopP_iff; [apply IHg1|apply IHg2]; intros; apply H; apply in_or_app; auto.
+  - rewrite (IHg1 r1 r2), (IHg2 r1 r2), (IHg3 r1 r2); try tauto;
+      intros; apply H; apply in_or_app; auto; right; apply in_or_app; auto.
+  - split; intros Hh j Hj; apply (IHg r1 r2 H j); auto.
+  - split; intros [j [Hj Hh]]; exists j; split; auto; apply (IHg r1 r2 H j); auto.
+  - split; intros Hh j Hj; apply (IHg r1 r2 H j); auto.
+  - split; intros [j [Hj Hh]]; exists j; split; auto; apply (IHg r1 r2 H j); auto.
+  - assert (H1 : forall j, holds g1 r1 j <-> holds g1 r2 j)
+      by (apply IHg1; intros; apply H; apply in_or_app; auto).
+    assert (H2 : forall j, holds g2 r1 j <-> holds g2 r2 j)
+      by (apply IHg2; intros; apply H; apply in_or_app; auto).
+    split; intros [j [Hj [Hg Hf]]]; exists j; (split; [exact Hj|]);
+      (split; [now apply H2|]); intros k Hk1 Hk2; apply H1; auto.
+  - split; intros Hh j Hj; apply (IHg r1 r2 H j); auto.
+  - split; intros [j [Hj Hh]]; exists j; split; auto; apply (IHg r1 r2 H j); auto.
+  - assert (H1 : forall j, holds g1 r1 j <-> holds g1 r2 j)
+      by (apply IHg1; intros; apply H; apply in_or_app; auto).
+    assert (H2 : forall j, holds g2 r1 j <-> holds g2 r2 j)
+      by (apply IHg2; intros; apply H; apply in_or_app; auto).
+    split; intros [j [Hj [Hg Hf]]]; exists j; (split; [exact Hj|]);
+      (split; [now apply H2|]); intros k Hk1 Hk2; apply H1; auto.
+Qed.
+
+(* ------------------------------ user sequence sigma + auxiliary sequence *)
+Theorem translate_until_partial : forall f,
+  let X := translate true true f in
+  no_clash f (x_names X) ->
+  forall sigma,
+    (* every sequence of auxiliary values that reflects the semantics of the
+       tracked formulas is a fair solution *)
+    (forall alpha, reflects (x_testers X) sigma alpha ->
+                   is_solution_inf X sigma alpha) /\
+    (* every fair solution reflects the semantics, and gives the translated
+       formula the truth value of f at every position *)
+    (forall alpha, is_solution_inf X sigma alpha ->
+       reflects (x_testers X) sigma alpha /\
+       forall i, eval (comb (x_names X) sigma alpha i) (x_formula X) = true
+                 <-> holds f sigma i) /\
+    (* hence any two fair solutions coincide *)
+    (forall alpha1 alpha2,
+       is_solution_inf X sigma alpha1 -> is_solution_inf X sigma alpha2 ->
+       forall i v, In v (x_names X) -> alpha1 i v = alpha2 i v).
+Proof.
+  intros f X NC sigma.
+  destruct (translate_tracksI f) as (W & HN & Hst & HV & H).
+  fold X in W, HN, Hst, HV, H. unfold is_solution_inf.
+  assert (SE : forall alpha g, incl (vars g) (vars f) ->
+            forall i, holds g (comb (x_names X) sigma alpha) i <-> holds g sigma i).
+  { intros alpha g Hg. apply holds_ext. intros j v Hv. apply comb_user.
+    apply NC. now apply Hg. }
+  assert (R1 : forall alpha, reflects (x_testers X) sigma alpha <->
+                 tracksI (comb (x_names X) sigma alpha) (x_testers X)).
+  { intros alpha. unfold reflects, tracksI, track1I. split; intros HR t Ht i.
+    - rewrite comb_aux by (rewrite HN; now apply in_map).
+      rewrite SE by (now apply HV). now apply HR.
+    - rewrite <- (SE alpha) by (now apply HV).
+      rewrite <- (HR t Ht i). rewrite comb_aux; [tauto|].
+      rewrite HN. now apply in_map. }
+  assert (P2 : forall alpha, solves_inf X (comb (x_names X) sigma alpha) ->
+       reflects (x_testers X) sigma alpha /\
+       forall i, eval (comb (x_names X) sigma alpha i) (x_formula X) = true
+                 <-> holds f sigma i).
+  { intros alpha Hs. apply (proj1 (H _)) in Hs. split; [now apply R1|].
+    intros i. rewrite (proj2 (H _) Hs i). apply SE. apply incl_refl. }
+  split; [|split].
+  - intros alpha HR. apply (proj1 (H _)). now apply R1.
+  - exact P2.
+  - intros a1 a2 H1 H2 i v Hv.
+    destruct (P2 a1 H1) as [R_1 _]. destruct (P2 a2 H2) as [R_2 _].
+    rewrite HN in Hv. apply in_map_iff in Hv. destruct Hv as [t [<- Ht]].
+    apply (bool_iff_eq _ _ (holds (t_tracks t) sigma i)); auto.
+Qed.
+
+(* existence, for sequences on which the semantics is decidable *)
+Theorem translate_until_exists : forall f,
+  let X := translate true true f in
+  no_clash f (x_names X) ->
+  forall sigma,
+    (forall g i, {holds g sigma i} + {~ holds g sigma i}) ->
+    exists alpha, is_solution_inf X sigma alpha.
+Proof.
+  intros f X NC sigma D.
+  destruct (translate_tracksI f) as (W & _). fold X in W.
+  exists (fun i v => match find v (x_testers X) with
+                     | Some t => if D (t_tracks t) i then true else false
+                     | None => false
+                     end).
+  apply (proj1 (translate_until_partial f NC sigma)).
+  intros t Ht i. rewrite (find_in_nodup _ t (proj1 W) Ht).
+  destruct (D (t_tracks t) i); intuition congruence.
+Qed.
